@@ -1,8 +1,10 @@
 package pdaemon
 
 import (
+	"errors"
 	"fmt"
 	"io"
+	"net"
 	"os"
 	"path/filepath"
 	"strings"
@@ -316,6 +318,127 @@ func signalBeforeWriters(sig syscall.Signal, name string) cellResult {
 	return res
 }
 
+// httpCell: the daemon serves /metrics and the health endpoints (-metrics -healthz, fixed port 2112) and a client
+// is stalled in the middle of a response (it pipelined many requests and never reads) at the moment of the cause.
+// The HTTP side must not keep the process alive.
+func httpCell(cause string) cellResult {
+	res := cellResult{Cell: cause + "/http-client-stalled-mid-response"}
+	if c, err := net.DialTimeout("tcp", "127.0.0.1:2112", 200*time.Millisecond); err == nil {
+		c.Close()
+		res.Verdict, res.Detail = "inconclusive", "TCP port 2112 (hard-wired in cmd/cmd.go) is in use by another process"
+		return res
+	}
+	d := &daemon{dir: newDir(), extraArgs: []string{"-metrics", "-healthz", "-log-level", "debug"}}
+	defer os.RemoveAll(d.dir)
+	d.sshdPath = filepath.Join(d.dir, "sshd-pipe")
+	d.auditPath = filepath.Join(d.dir, "audit-pipe")
+	d.outPath = filepath.Join(d.dir, "events.log")
+	mkfifo(d.sshdPath)
+	mkfifo(d.auditPath)
+	_ = os.WriteFile(d.outPath, nil, 0o644)
+	if err := d.start(false); err != nil {
+		res.Verdict, res.Detail = "inconclusive", err.Error()
+		return res
+	}
+	defer d.kill()
+	sw, err := d.openWriter(d.sshdPath, 10*time.Second)
+	if err != nil {
+		res.Verdict, res.Detail = "inconclusive", err.Error()
+		return res
+	}
+	defer sw.Close()
+	aw, err := d.openWriter(d.auditPath, 10*time.Second)
+	if err != nil {
+		res.Verdict, res.Detail = "inconclusive", err.Error()
+		return res
+	}
+	defer aw.Close()
+	var conn net.Conn
+	for until := time.Now().Add(10 * time.Second); time.Now().Before(until); time.Sleep(20 * time.Millisecond) {
+		if conn, err = net.DialTimeout("tcp", "127.0.0.1:2112", 200*time.Millisecond); err == nil {
+			break
+		}
+		select {
+		case <-d.exited:
+			res.Verdict, res.Detail = "inconclusive", "the daemon exited during start-up (port 2112 taken?): "+tail(d.stderr.String(), 2)
+			return res
+		default:
+		}
+	}
+	if conn == nil {
+		res.Verdict, res.Detail = "inconclusive", "the HTTP server did not come up on port 2112"
+		return res
+	}
+	defer conn.Close()
+	if tc, ok := conn.(*net.TCPConn); ok {
+		_ = tc.SetReadBuffer(4096)
+	}
+	// a quick sanity request on a second connection: the server answers
+	if c2, err := net.DialTimeout("tcp", "127.0.0.1:2112", time.Second); err == nil {
+		_, _ = c2.Write([]byte("GET /readyz HTTP/1.1\r\nHost: x\r\nConnection: close\r\n\r\n"))
+		_ = c2.SetReadDeadline(time.Now().Add(2 * time.Second))
+		b, _ := io.ReadAll(c2)
+		c2.Close()
+		if !strings.HasPrefix(string(b), "HTTP/1.1 ") {
+			res.Verdict, res.Detail = "inconclusive", "no HTTP answer on /readyz"
+			return res
+		}
+	}
+	// pipeline requests until the server stops taking them (its responses have nowhere to go), never read
+	req := []byte(strings.Repeat("GET /metrics HTTP/1.1\r\nHost: x\r\n\r\n", 64))
+	// "stalled" = the server takes no byte at all for 3 x 400 ms in a row (a server that is merely slow still
+	// takes some): its handler is then stuck in Write, because its responses have nowhere to go
+	stalled := false
+	sent, dry := 0, 0
+	var werr error
+	for until := time.Now().Add(30 * time.Second); !stalled && time.Now().Before(until); {
+		_ = conn.SetWriteDeadline(time.Now().Add(400 * time.Millisecond))
+		n, err := conn.Write(req)
+		sent += n
+		if err == nil {
+			dry = 0
+			continue
+		}
+		werr = err
+		var ne net.Error
+		if !errors.As(err, &ne) || !ne.Timeout() {
+			break
+		}
+		if n == 0 {
+			dry++
+		} else {
+			dry = 0
+		}
+		stalled = dry >= 3
+	}
+	res.Detail = fmt.Sprintf("pipelined %d request bytes until %v", sent, werr)
+	res.Saturated = stalled
+	if !stalled {
+		res.Verdict, res.Detail = "inconclusive", "could not stall the HTTP response: "+res.Detail
+		return res
+	}
+	t0 := time.Now()
+	wantNonZero := true
+	switch cause {
+	case "audit-pipe-eof":
+		aw.Close()
+	case "sigterm":
+		_ = d.cmd.Process.Signal(syscall.SIGTERM)
+		wantNonZero = false
+	}
+	exited, code := d.waitExit(exitBound)
+	res.LatencyS, res.ExitCode = time.Since(t0).Seconds(), code
+	switch {
+	case !exited:
+		res.Verdict, res.Detail = "violation", fmt.Sprintf("the daemon is still running %v after the cause while an HTTP client is stalled mid-response", exitBound)
+	case wantNonZero && code == 0:
+		res.Verdict, res.Detail = "violation", "the daemon exited with status 0 after a worker failure"
+	default:
+		res.Verdict, res.Detail = "ok", res.Detail+"; "+tail(d.stderr.String(), 1)
+	}
+	return res
+}
+
 func startupCell(which, kind string) cellResult {
 	res := cellResult{Cell: "startup/" + which + "-is-" + kind}
 	d := &daemon{dir: newDir()}
@@ -406,6 +529,9 @@ func runC08(run *mc.Run) int {
 	if run.Thorough() {
 		judge(signalBeforeWriters(syscall.SIGINT, "sigint"))
 	}
+	// with the HTTP endpoints enabled and a client stalled mid-response (and, in these cells, debug logging)
+	judge(httpCell("audit-pipe-eof"))
+	judge(httpCell("sigterm"))
 	for _, which := range []string{"sshd", "audit"} {
 		for _, kind := range []string{"regular-file", "directory", "missing"} {
 			judge(startupCell(which, kind))
@@ -424,7 +550,7 @@ func runC08(run *mc.Run) int {
 		}
 	}
 	cov := mc.Coverage{Level: "fault_enumeration", Evaluations: len(results), Distinct: len(results) - inconclusive, Exhaustive: inconclusive == 0, Samples: samples,
-		Rule:  "fault enumeration on the built binary over real FIFOs: 10 run-time causes (sshd pipe EOF, sshd writer dying mid-line with a replacement writer connecting 300 ms later (idle and stalled-output only), audit pipe EOF, unparsable audit line, a LOGIN record whose pid is not a number, a login the correlator rejects while the next login is already buffered, output /dev/full, output FIFO whose reader left, SIGTERM, SIGINT) x load {idle, stalled-output: the events FIFO is never drained so the line buffer and the audit pipe stay full (write end accepts no byte for >=300 ms), saturated: a writer keeps the audit FIFO full - single-record events written at full speed, >=8 MB written and the pipe found full >=50 times - flow equilibrium with the 10000-slot line buffer full}, 6 start-up causes (sshd/audit path is a regular file, a directory, missing); oracle: the process exits within 10 s of the cause, non-zero for failures. A cell whose set-up could not be reached is inconclusive (exit 0, exhaustive=false). distinct_nontrivial = conclusive cells",
+		Rule:  "fault enumeration on the built binary over real FIFOs: 10 run-time causes (sshd pipe EOF, sshd writer dying mid-line with a replacement writer connecting 300 ms later (idle and stalled-output only), audit pipe EOF, unparsable audit line, a LOGIN record whose pid is not a number, a login the correlator rejects while the next login is already buffered, output /dev/full, output FIFO whose reader left, SIGTERM, SIGINT) x load {idle, stalled-output: the events FIFO is never drained so the line buffer and the audit pipe stay full (write end accepts no byte for >=300 ms), saturated: a writer keeps the audit FIFO full - single-record events written at full speed, >=8 MB written and the pipe found full >=50 times - flow equilibrium with the 10000-slot line buffer full}, 2 cells with -metrics -healthz -log-level debug and an HTTP client stalled mid-response (pipelined /metrics requests, never read) x {audit pipe EOF, SIGTERM}, 6 start-up causes (sshd/audit path is a regular file, a directory, missing); oracle: the process exits within 10 s of the cause, non-zero for failures. A cell whose set-up could not be reached is inconclusive (exit 0, exhaustive=false). distinct_nontrivial = conclusive cells",
 		Extra: map[string]any{"cells": results, "saturated_cells_reached": sat, "inconclusive": inconclusive, "bound_s": exitBound.Seconds()}}
 	cov.Assumptions = []string{"the OS scheduler is not controlled; 10 s is the property's bounded time against observed millisecond latencies",
 		"the decisive blocking state (line buffer full, consumer gone) is also decided deterministically by C13's bubble cells"}
